@@ -1,7 +1,7 @@
 import GMGProofs.Lemmas.Concrete12
 import GMGProofs.Lemmas.CycleFmg
 /-!
-# Invariants and agreement of nested iteration (`Cycle.fmgSpec`) over abstract operators
+# Invariants and agreement of nested iteration (`MGCycle.fmgSpec`) over abstract operators
 core Lean only.
 * `excyc_inv`: the implicitly extrapolated cycle on level 0 preserves the invariant (`ExOpsInvR`: as `ExOpsInv`, with a predicate
   `R` on the level-1 right-hand side — "present" for the totality proofs, `True` for "right-sized if present");
@@ -10,7 +10,7 @@ core Lean only.
 * `cycleSpec_agree`, `fmgSpec_agree`: two operator families that agree on invariant arguments (`OpsAgree`, `ExOpsAgree`) and share
   the FMG interpolation compute the same nested iteration.
 -/
-namespace Cycle
+namespace MGCycle
 variable {V : Type}
 
 /-- what the extra steps of the implicitly extrapolated cycle on level 0 have to preserve; `R`: what is known about the level-1
@@ -112,4 +112,4 @@ theorem fmgSpec_agree (o₁ o₂ : Ops V) (c : Cfg) (P Q : Nat → V → Prop) (
       exact fmgSpec_agree o₁ o₂ c P Q A I ex fgs hex g fk fi hfiA hfi hg cur _ (by omega)
         (iter_inv _ (P cur) hinv fi _ ht)
 
-end Cycle
+end MGCycle
